@@ -10,6 +10,7 @@ import Drivers.NodeCell
 import Drivers.Codec
 import Drivers.Sol
 import Drivers.Dist
+import Drivers.Dist2
 import Drivers.MeshOps
 import Drivers.Cavity
 import Drivers.Guards
@@ -26,6 +27,7 @@ import Drivers.SmoothInterp
 import Drivers.Rcb
 import Drivers.Ugrid
 import Drivers.GatherMeshb
+import Drivers.Repro
 
 /-! `refdrv <driver> [args]` : dispatch to a line-protocol driver. One match arm per driver, on one line. -/
 
@@ -41,6 +43,7 @@ def main (args : List String) : IO UInt32 := do
   | "codec" :: rest => Drivers.Codec.run rest
   | "sol" :: rest => Drivers.Sol.run rest
   | "dist" :: rest => Drivers.Dist.run rest
+  | "dist2" :: rest => Drivers.Dist2.run rest
   | "meshops" :: rest => Drivers.MeshOps.run rest
   | "cavity" :: rest => Drivers.Cavity.run rest
   | "guards" :: rest => Drivers.Guards.run rest
@@ -57,6 +60,7 @@ def main (args : List String) : IO UInt32 := do
   | "rcb" :: rest => Drivers.Rcb.run rest
   | "ugrid" :: rest => Drivers.Ugrid.run rest
   | "gathermeshb" :: rest => Drivers.GatherMeshb.run rest
+  | "repro" :: rest => Drivers.Repro.run rest
   | _ =>
     IO.eprintln s!"refdrv: unknown driver {args}"
     return 2
